@@ -47,5 +47,15 @@ func isDocument(templateBytes []byte) bool {
 	lower := bytes.TrimSpace(bytes.ToLower(templateBytes))
 	return bytes.Contains(lower, []byte("</html>")) ||
 		bytes.HasPrefix(lower, []byte("<!doctype")) ||
-		bytes.HasPrefix(lower, []byte("<html"))
+		startsWithTag(lower, "html")
+}
+
+// startsWithTag reports whether b starts with the start tag of the named element (and not with
+// a longer name that merely begins like it: <html-view>).
+func startsWithTag(b []byte, name string) bool {
+	if !bytes.HasPrefix(b, []byte("<"+name)) {
+		return false
+	}
+	rest := b[len(name)+1:]
+	return len(rest) == 0 || bytes.IndexByte([]byte(" \t\n\r\f/>"), rest[0]) >= 0
 }
